@@ -30,6 +30,8 @@ def load():
         return
     if REPO not in sys.path:
         sys.path.insert(0, REPO)
+    from . import cov
+    cov.start(REPO)
     with quiet():
         import gasol_asm  # noqa: F401
     _loaded = True
